@@ -897,12 +897,28 @@ static int write_table(void *context, cif_value_tp *table_value) {
             for (key = keys; *key; key += 1) {
                 cif_value_tp *kv = NULL;
                 cif_value_tp *value = NULL;
+                int32_t value_chars;
 
                 if (cif_value_get_item_by_key(table_value, *key, &value) != CIF_OK) {
                     FAIL(soft, CIF_INTERNAL_ERROR);
                 }
 
-                if (u_strHasMoreChar32Than(*key, -1, LINE_LENGTH(context) - (LAST_COLUMN(context) + 4))
+                /*
+                 * The key is written on the current line only if it fits there together with its delimiters, the colon
+                 * and the start of the value; an unquoted number cannot be separated from the colon, so it must fit whole
+                 */
+                value_chars = 1;
+                if ((cif_value_kind(value) == CIF_NUMB_KIND) && (cif_value_is_quoted(value) == CIF_NOT_QUOTED)) {
+                    UChar *number_text = NULL;
+
+                    if (cif_value_get_text(value, &number_text) != CIF_OK) {
+                        FAIL(soft, CIF_ERROR);
+                    }
+                    value_chars = u_countChar32(number_text, -1);
+                    free(number_text);
+                }
+                if ((LAST_COLUMN(context) > 0)
+                        && u_strHasMoreChar32Than(*key, -1, LINE_LENGTH(context) - (LAST_COLUMN(context) + 4 + value_chars))
                         && !write_newline(context)) {
                     FAIL(soft, CIF_ERROR);
                 }
